@@ -37,10 +37,26 @@ type zzOp struct {
 }
 
 type zzLevel struct {
+	native  bool // running natively over the real goleveldb (replay / cross-validation)
 	ents    map[*leveldb.DB][]zzEnt
 	batches map[*leveldb.Batch][]zzOp
 	writes  int // ghost: number of (*DB).Write calls
 	iters   int // ghost: iterators created and not yet released
+}
+
+// all returns every (key, value) pair of db in key order. Under the engine that
+// is the seam's list; natively it is read from the real goleveldb.
+func (l *zzLevel) all(db *leveldb.DB) []zzEnt {
+	if !l.native {
+		return l.ents[db]
+	}
+	var out []zzEnt
+	it := db.NewIterator(nil, nil)
+	for it.Next() {
+		out = append(out, zzEnt{zzClone(it.Key()), zzClone(it.Value())})
+	}
+	it.Release()
+	return out
 }
 
 func zzClone(b []byte) []byte {
@@ -240,6 +256,14 @@ var _ iterator.Iterator = (*zzIter)(nil)
 // zzNewStore builds an MVCCLevelDB over the seam (what NewMVCCLevelDB("")
 // builds, minus leveldb.Open) and installs the function seams.
 func zzNewStore() (*MVCCLevelDB, *zzLevel) {
+	if !zzInterp() {
+		// native run: the real store over the real goleveldb (in-memory storage)
+		real, err := NewMVCCLevelDB("")
+		if err != nil {
+			panic(err)
+		}
+		return real, &zzLevel{native: true}
+	}
 	l := &zzLevel{ents: map[*leveldb.DB][]zzEnt{}, batches: map[*leveldb.Batch][]zzOp{}}
 	db := &leveldb.DB{}
 	store := &MVCCLevelDB{
